@@ -8,6 +8,7 @@ P(ns, name)  calls member `name` of the namespace-like object `ns` and returns w
              `parent.`/`next.` call made further down - the AttributeError is caught and '<none>' is returned.
              Text already written stays written: the probe is a plain Python try/except.
 A(ns, name)  returns module attribute `name` through `ns.attr`, or '<none>'.
+U(context, name)  uri of context[name] when that is a namespace, else '<undefined>'.
 
 The same functions are used by the reference interpreter on its own view objects, so nothing about Mako is
 assumed beyond "an unresolvable member is an AttributeError" (what Namespace documents).
@@ -28,6 +29,12 @@ def A(ns, name):
         return getattr(ns.attr, name)
     except AttributeError:
         return NONE
+
+
+def U(context, name):
+    """uri of the namespace the context holds under `name` (self / local / parent / next), '<undefined>' when the
+    context holds no namespace of that name (Context.get then answers None or a Python builtin)"""
+    return getattr(context.get(name), "uri", "<undefined>")
 
 
 def resolve(value):
